@@ -213,6 +213,7 @@ func (s *c18Sys) Key() string {
 // scheduler scenario: purge racing an in-flight fetch with a waiter, then a later request
 func c18Race(c *Ctx, name string, withStore bool, b vsched.Bounds) Sched {
 	getFault := strings.Contains(name, "read-fault")
+	storeOnly := strings.Contains(name, "load-from-store") // like read-fault, but the store read succeeds: the requests load the record
 	preSerial := ""
 	cfg := c18Config(withStore)
 	return Sched{
@@ -235,14 +236,14 @@ func c18Race(c *Ctx, name string, withStore bool, b vsched.Bounds) Sched {
 			e.Respond = func(oc *env.OriginCall) env.OriginResp { return env.Cacheable(oc, 60, "p") }
 			// /k2 is cached beforehand and must stay a hit
 			e.Do(env.Req{Addr: c18S1, URI: "/k2", Rid: "pro"})
-			if getFault && st != nil {
+			if (getFault || storeOnly) && st != nil {
 				// a record of /k1 exists in the store only (memory lost), and the store's first read of it fails: the
 				// request refetches while the old record is still there for the purge to remove
 				p1 := e.Do(env.Req{Addr: c18S1, URI: "/k1", Rid: "pro1"})
 				preSerial, _, _, _, _, _ = env.ParseSelf(p1.Body)
 				freshCaches(cfg)
 				e.Do(env.Req{Addr: c18S1, URI: "/k2", Rid: "pro2"})
-				failed := false
+				failed := storeOnly
 				st.Menu = func(op string, key []byte) []env.Fault {
 					if op == "get" && strings.HasSuffix(string(key), "/k1") && !failed {
 						failed = true
@@ -323,7 +324,7 @@ func c18Race(c *Ctx, name string, withStore bool, b vsched.Bounds) Sched {
 				}
 				// persisted copy: after everything ended the store may hold /k1 only from a fetch of this run (not the
 				// record that was there before the purge)
-				if getFault && st != nil {
+				if (getFault || storeOnly) && st != nil {
 					if rec, ok := st.Disk["GET a.com /k1"]; ok && preSerial != "" && bytes.Contains(rec.Data, []byte(preSerial+"|GET|")) {
 						return &vsched.Violation{Sig: "persisted-copy-survives-purge", Msg: "the record that was in the store before the purge is still there after it completed"}
 					}
@@ -365,9 +366,20 @@ func init() {
 		if c.Want("purge-long-keys") && c.Shard == 0 {
 			st := c.Stat("purge-long-keys", "enumeration")
 			lens := []int{1, 200, 980, 990, 999, 1000, 1001, 1010, 1024, 3000, 6000}
-			st.Bounds = fmt.Sprintf("request-URIs of %v bytes on a store-backed cache: fetch, hit, purge through the admin server, store must be empty, restart, next request must be a fetch", lens)
+			st.Bounds = fmt.Sprintf("request-URIs of %v bytes on a store-backed cache: fetch, hit, purge through the admin server, store must be empty, restart, next request must be a fetch; the same for 8 URIs with , & + ; # %%2C %%20 (and the neighbour whose URI ends before that character stays cached)", lens)
 			cfg := env.BasicConfig(config.CacheConfig{Store: "fault://c18long"})
+			var uris []string
 			for _, n := range lens {
+				if n == 1 {
+					uris = append(uris, "/")
+				} else {
+					uris = append(uris, "/"+strings.Repeat("k", n-1))
+				}
+			}
+			// characters that mean something in a query string, a list or the admin API's own parameter
+			uris = append(uris, "/thumb?size=100,200", "/a,b", "/x?y=1&z=2", "/p?q=a+b", "/p?q=a%2Cb", "/s?k=a;b", "/h#frag", "/sp%20ace")
+			for _, uri := range uris {
+				n := len(uri)
 				fs := env.NewFaultStore()
 				fs.Register("fault://c18long")
 				e := getEnv(cfg, "c18-long")
@@ -375,15 +387,21 @@ func init() {
 				vtime.Set(vtime.Base)
 				e.Respond = func(oc *env.OriginCall) env.OriginResp { return env.Cacheable(oc, 600, "p") }
 				e.Events()
-				uri := "/" + strings.Repeat("k", n-1)
-				if n == 1 {
-					uri = "/"
+				kase := map[string]interface{}{"uri_bytes": n, "uri": string(trunc([]byte(uri)))}
+				// a neighbour whose URI is the part before the first comma / ampersand / semicolon stays cached
+				nb := uri
+				if i := strings.IndexAny(uri, ",&;"); i > 0 {
+					nb = uri[:i]
+					e.Do(env.Req{URI: nb, Rid: "n1"})
 				}
-				kase := map[string]int{"uri_bytes": n}
 				r1 := e.Do(env.Req{URI: uri, Rid: "r1"})
 				r2 := e.Do(env.Req{URI: uri, Rid: "r2"})
 				st.Execs++
-				if r1.XStatus != "fetching" || r2.XStatus != "hit" || len(fs.Keys()) != 1 {
+				nrec := 1
+				if nb != uri {
+					nrec = 2
+				}
+				if r1.XStatus != "fetching" || r2.XStatus != "hit" || len(fs.Keys()) != nrec {
 					c.Violation("purge-long-keys", "long-key-not-cached-or-persisted", fmt.Sprintf("URI of %d bytes: labels %s/%s, %d records in the store", n, r1.XStatus, r2.XStatus, len(fs.Keys())), nil, kase, nil)
 					continue
 				}
@@ -391,8 +409,13 @@ func init() {
 					c.Violation("purge-long-keys", "purge-error", err.Error(), nil, kase, nil)
 					continue
 				}
-				if ks := fs.Keys(); len(ks) != 0 {
-					c.Violation("purge-long-keys", "persisted-copy-survives-purge", fmt.Sprintf("URI of %d bytes: after the purge the store still holds %d record(s) (key of %d bytes)", n, len(ks), len(ks[0])), nil, kase, nil)
+				if ks := fs.Keys(); len(ks) != nrec-1 {
+					c.Violation("purge-long-keys", "persisted-copy-survives-purge", fmt.Sprintf("URI %q (%d bytes): after the purge the store holds %d record(s), expected %d", trunc([]byte(uri)), n, len(ks), nrec-1), nil, kase, nil)
+				}
+				if nb != uri {
+					if r := e.Do(env.Req{URI: nb, Rid: "n2"}); r.XStatus != "hit" {
+						c.Violation("purge-long-keys", "other-key-lost", fmt.Sprintf("the purge of %q made the request for %q %s", uri, nb, r.XStatus), nil, kase, nil)
+					}
 				}
 				freshCaches(cfg)
 				e.Events()
@@ -487,6 +510,7 @@ func init() {
 		}
 		c.RunSched(c18Race(c, "purge-vs-fetch-nostore", false, vsched.Bounds{Preempt: pre, Tick: 0, Data: -1, Total: -1}))
 		c.RunSched(c18Race(c, "purge-vs-fetch-store", true, vsched.Bounds{Preempt: pre, Tick: 0, Data: -1, Total: -1}))
+		c.RunSched(c18Race(c, "purge-vs-load-from-store", true, vsched.Bounds{Preempt: pre, Tick: 0, Data: -1, Total: -1}))
 		c.RunSched(c18Race(c, "purge-vs-fetch-store-read-fault", true, vsched.Bounds{Preempt: pre, Tick: 0, Data: -1, Total: -1}))
 	})
 }
